@@ -225,26 +225,39 @@ def rclass(r):
 
 
 def owners(div):
-    """Properties that own the observable in which this divergence shows (first-divergence attribution)."""
+    """Properties that own the observables in which this divergence shows (first-divergence attribution, DESIGN A.4).
+    A mismatch lists every differing key of that return; the owners are the union over the keys."""
     kind = div.get("kind")
     fn = div.get("fn", "")
-    key = div.get("key", "")
     obs = div.get("obs") if isinstance(div.get("obs"), dict) else {}
-    exp = div.get("exp")
-    own = set()
-    if kind in ("crash",):
-        return {"C14", "C05"} if div.get("flavor") == "asan" or True else set()
-    if kind == "infra" or kind == "badscript" or kind == "badenv" or kind == "garbled":
+    if kind == "crash":
+        return {"C14", "C05"}
+    if kind in ("infra", "badscript", "badenv", "garbled"):
         return {"INFRA"}
     if kind == "envfail":
         # the environment could not do what the model says it can (e.g. the child has no such descriptor)
         return {"C10", "C02"}
     if kind in ("hang", "early"):
-        own |= {"stop": {"C07"}, "wait": {"C08"}, "poll": {"C08"}, "destroy": {"C15"}, "read": {"C17", "C02"},
-                "write": {"C17", "C02"}, "start": {"C17", "C04"}, "drain": {"C16"}, "run": {"C16"}}.get(fn, {"C14"})
+        own = set({"stop": {"C07"}, "wait": {"C08"}, "poll": {"C08"}, "destroy": {"C15"}, "read": {"C17", "C02"},
+                   "write": {"C17", "C02"}, "start": {"C17", "C04"}, "drain": {"C16"}, "run": {"C16"}}.get(fn, {"C14"}))
         if fn in ("stop", "wait", "destroy") and kind == "hang":
             own |= {"C01"}
         return own
+    keys = div.get("keys") or [div.get("key", "")]
+    exps = div.get("exp") if isinstance(div.get("exp"), dict) and div.get("keys") else {div.get("key", ""): div.get("exp")}
+    own = set()
+    for key in keys:
+        own |= owners_key(fn, key, exps.get(key), obs)
+    return own or {"C14"}
+
+
+STATE_OWNER = {"read": {"C02"}, "write": {"C02"}, "close": {"C02"}, "poll": {"C09"}, "wait": {"C01"}, "stop": {"C01", "C07"},
+               "terminate": {"C06"}, "kill": {"C06"}, "drain": {"C16"}, "run": {"C16", "C05"}, "start": {"C04", "C05"},
+               "destroy": {"C05", "C15"}, "new": {"C05"}, "pid": {"C14"}}
+
+
+def owners_key(fn, key, exp, obs):
+    own = set()
     if key == "r":
         o = obs.get("r")
         alts = exp.get("any") if isinstance(exp, dict) and "any" in exp else [exp]
@@ -277,24 +290,28 @@ def owners(div):
             own.add("C15")
         return own or {"C14"}
     if key in ("reap", "st"):
-        return {"C01", "C05"} | ({"C15"} if fn == "destroy" else set())
+        return {"C01"} | ({"C15", "C05"} if fn in ("destroy", "run") else set())
     if key == "sig":
-        return {"C06"} | ({"C07"} if fn == "stop" else set()) | ({"C15"} if fn == "destroy" else set())
+        return {"C06"} | ({"C07"} if fn == "stop" else set()) | ({"C15"} if fn in ("destroy", "run") else set())
     if key in ("t", "dt"):
-        return {"stop": {"C07"}, "wait": {"C08"}, "poll": {"C08"}, "destroy": {"C15"}}.get(fn, {"C17"})
+        return {"stop": {"C07"}, "wait": {"C08"}, "poll": {"C08"}, "destroy": {"C15"}, "drain": {"C16"}, "run": {"C16"}}.get(fn, {"C17"})
     if key == "blk":
         return {"C17"}
     if key == "mon":
         for m in obs.get("mon", []):
             own |= MON_OWNER.get(m[0], {"C14"})
         return own or {"C14"}
-    if key in ("nfd", "nalloc", "left"):
-        return {"C05"} | ({"C04"} if fn == "start" else set())
+    if key in ("nfd", "nalloc"):
+        # the descriptor / allocation count is C05's after destroy (and C04's after a failed start); in between it is
+        # part of the state the call's own property predicts (e.g. a stream closed too early)
+        return STATE_OWNER.get(fn, {"C14"})
+    if key == "left":
+        return {"C04", "C05"}
     if key == "rev":
         return {"C09", "C08"}
     if key in ("runs", "bad", "cin"):
-        return {"C02"}
-    if key in ("sinks", "str1", "str2"):
+        return {"C02"} | ({"C16"} if fn in ("drain", "run") else set())
+    if key in ("sinks", "str1", "str2", "dsum"):
         return {"C16"}
     if key in ("cw", "pp", "cnb"):
         return {"C10"}
@@ -304,7 +321,7 @@ def owners(div):
         return {"C12"}
     if key in ("cargv", "cenv", "ccwd", "cprog"):
         return {"C03"}
-    if key in ("created",):
+    if key == "created":
         return {"C13"}
     if key in ("cexec", "forks"):
         return {"C04"}
@@ -317,10 +334,16 @@ def signature(prop, div):
     fn = div.get("fn", call.get("fn", "?"))
     args = {k: v for k, v in call.items() if k not in ("e", "fn", "h")}
     obs = div.get("obs") if isinstance(div.get("obs"), dict) else {}
-    return "%s %s kind=%s key=%s args=%s exp=%s obs=%s" % (
-        prop, fn, div.get("kind"), div.get("key"), json.dumps(args, sort_keys=True, separators=(",", ":")),
-        json.dumps(div.get("exp"), sort_keys=True, separators=(",", ":")),
-        json.dumps(obs.get(div.get("key")) if div.get("key") in obs else obs.get("r"), separators=(",", ":")))
+    keys = div.get("keys") or [div.get("key")]
+    if div.get("kind") in ("hang", "early"):
+        exp = "(returns)" if div.get("kind") == "hang" else "(still blocked)"
+        ob = obs.get("blocked_in", obs.get("r"))
+    else:
+        exp = div.get("exp")
+        ob = {k: obs.get(k) for k in keys if k in obs}
+    return "%s %s kind=%s keys=%s args=%s exp=%s obs=%s" % (
+        prop, fn, div.get("kind"), ",".join(str(k) for k in keys), json.dumps(args, sort_keys=True, separators=(",", ":")),
+        json.dumps(exp, sort_keys=True, separators=(",", ":")), json.dumps(ob, sort_keys=True, separators=(",", ":")))
 
 
 def load_known():
@@ -375,13 +398,40 @@ def fam_poll(tier, outdir):
                           stride=7 if tier == "quick" else 1)
 
 
-FAMILIES = {"stop": fam_stop, "life": fam_life, "poll": fam_poll}
+def fam_stream(tier, outdir):
+    consts = {"Handles": "{1}", "MaxTime": 0, "MaxCalls": 5, "PipeCap": 4, "MaxOut": 2, "ExitCodes": "{3}", "TermDelay": 1,
+              "Inputs": "{99, 3, 5}", "ReadSizes": "{0, 1, 3}", "WriteSizes": "{0, 3, 5}", "DlOpts": "{0}", "Mode": '"io"',
+              "SinkFails": "{}", "NbOpts": "{TRUE, FALSE}"}
+    if tier == "thorough":
+        consts.update({"MaxCalls": 6, "MaxOut": 3})
+    cfg = os.path.join(outdir, "MC_Stream.cfg")
+    write_cfg(cfg, "Spec", consts, ["TypeOK", "LifeChild", "Conservation"])
+    return run_tlc_export("stream", "MC_Stream", cfg, outdir, tier, asan_stride=16 if tier == "quick" else 8, tlc_workers=10,
+                          stride=5 if tier == "quick" else 1)
+
+
+def fam_drain(tier, outdir):
+    consts = {"Handles": "{1}", "MaxTime": 1, "MaxCalls": 4, "PipeCap": 4, "MaxOut": 3, "ExitCodes": "{3}", "TermDelay": 1,
+              "Inputs": "{99}", "ReadSizes": "{}", "WriteSizes": "{}", "DlOpts": "{0, 1}", "Mode": '"drain"',
+              "SinkFails": "{1, 3}", "NbOpts": "{TRUE, FALSE}"}
+    if tier == "thorough":
+        consts.update({"MaxCalls": 5, "MaxOut": 4, "MaxTime": 2, "SinkFails": "{1, 2, 3, 4}", "DlOpts": "{0, 1, 2}"})
+    cfg = os.path.join(outdir, "MC_Drain.cfg")
+    write_cfg(cfg, "Spec", consts, ["TypeOK", "LifeChild", "Conservation"])
+    return run_tlc_export("drain", "MC_Stream", cfg, outdir, tier, asan_stride=8, tlc_workers=10,
+                          stride=2 if tier == "quick" else 1)
+
+
+FAMILIES = {"stop": fam_stop, "life": fam_life, "poll": fam_poll, "stream": fam_stream, "drain": fam_drain}
 
 PROPS = {
     "C01": {"families": ["stop"], "title": "exit status exact, stable, reaped once"},
     "C06": {"families": ["stop"], "title": "only the own unreaped child is signalled or waited for"},
     "C07": {"families": ["stop"], "title": "stop sequences"},
     "C14": {"families": ["life"], "title": "life cycle; misuse errors, never UB"},
+    "C02": {"families": ["stream"], "title": "stream fidelity"},
+    "C16": {"families": ["drain"], "title": "drain and run"},
+    "C17": {"families": ["stream"], "title": "nonblocking never blocks; blocking waits only for the child"},
     "C08": {"families": ["poll"], "title": "deadlines and timeouts bound every wait and poll"},
     "C09": {"families": ["poll"], "title": "poll reports exactly the true events"},
 }
